@@ -152,7 +152,7 @@ theorem C14_conflict_at_flush_insert (sch : Schema) (w : World) (o : ObjId) (ids
     (flushObj sch w o ids).err = some .txnIntegrity ∧ (flushObj sch w o ids).w.txn = w.txn ∧
       (flushObj sch w o ids).w.sess = w.sess ∧ (flushObj sch w o ids).w.committed = w.committed := by
   have hn : dbInsert sch w.txn (objRow (w.sess.obj o) k) = none := dbInsert_none.mpr ⟨x, hx, hc⟩
-  unfold flushObj
+  unfold flushObj flushInsert
   simp only [hst, hpk, hn]
   exact ⟨trivial, trivial, trivial, trivial⟩
 
@@ -170,13 +170,37 @@ theorem C14_conflict_at_flush_update (sch : Schema) (w : World) (o : ObjId) (ids
 
 /-- a flush that meets a refused statement reports it: `flush` returns the error of the first refused statement (it is not
     swallowed), and `commit()` then rolls back (`C14_flush_error_rolls_back`) -/
-theorem C14_flush_reports (sch : Schema) (w : World) (ids : List Int) (hp : w.pendingSaved = false) (hq : w.sess.queue.isEmpty = false)
+theorem C14_flush_reports (sch : Schema) (w : World) (ids : List Int) (hp : w.pendingSaved = false) (hq : w.modified = true)
     (e : WErr) (sv : Bool) (w' : World) (hg : flushGo sch w.sess.queue w ids false = (w', some e, sv)) :
     (flush sch w ids).2 = some e ∧ (commit sch w ids).2 = some e := by
   have : flush sch w ids = ({ w' with pendingSaved := sv }, some e) := by
     unfold flush
     simp [hp, hq, hg]
   exact ⟨by rw [this], by unfold commit; rw [this]⟩
+
+/-! ### … and nothing is lost or written silently: one `_save_()` touches exactly one row -/
+
+/-- a new object that was saved without error IS in the table the session sees, under its explicit or generated primary
+    key, with exactly the session's values; every other primary key finds the row it found before -/
+theorem C14_saved_insert_is_there (sch : Schema) (w : World) (o : ObjId) (ids : List Int)
+    (hst : (w.sess.obj o).status = .created) (he : (flushObj sch w o ids).err = none) :
+    ∃ k, ((w.sess.obj o).pk = some k ∨ ((w.sess.obj o).pk = none ∧ ∃ id r, ids = id :: r ∧ k = [id])) ∧
+      ∀ pk', getRow (flushObj sch w o ids).w.txn pk' = if pk' = k then some (objRow (w.sess.obj o) k) else getRow w.txn pk' :=
+  flushObj_created_rows hst he
+
+/-- a modified object that was saved without error: its row (and no other) now has the session's values in the written columns -/
+theorem C14_saved_update_is_there (sch : Schema) (w : World) (o : ObjId) (ids : List Int) (k : KeyVal)
+    (hst : (w.sess.obj o).status = .modified) (hpk : (w.sess.obj o).pk = some k)
+    (hw : (List.range sch.nattrs).any (w.sess.obj o).wbits = true) (he : (flushObj sch w o ids).err = none) :
+    ∃ old, getRow w.txn k = some old ∧
+      ∀ pk', getRow (flushObj sch w o ids).w.txn pk' = if pk' = k then some (updRow (w.sess.obj o) old) else getRow w.txn pk' :=
+  flushObj_modified_rows hst hpk hw he
+
+/-- a deleted object that was saved: its row (and no other) is gone -/
+theorem C14_saved_delete_is_gone (sch : Schema) (w : World) (o : ObjId) (ids : List Int) (k : KeyVal)
+    (hst : (w.sess.obj o).status = .markedToDelete) (hpk : (w.sess.obj o).pk = some k) (pk' : KeyVal) :
+    getRow (flushObj sch w o ids).w.txn pk' = if pk' = k then none else getRow w.txn pk' :=
+  flushObj_deleted_rows hst hpk pk'
 
 /-! ### the statements are not vacuous -/
 
